@@ -755,3 +755,12 @@ func truncTimestamp(ts protoreflect.Message, f sebufhttp.TimestampFormat) {
 		ts.Set(nfd, protoreflect.ValueOfInt32(int32(nanos)))
 	}
 }
+
+// Is64 reports whether fd is a 64-bit integer field.
+func Is64(fd protoreflect.FieldDescriptor) bool {
+	switch fd.Kind() {
+	case protoreflect.Int64Kind, protoreflect.Sint64Kind, protoreflect.Sfixed64Kind, protoreflect.Uint64Kind, protoreflect.Fixed64Kind:
+		return true
+	}
+	return false
+}
